@@ -96,10 +96,10 @@ fn srgb_decode(v: f64) -> f64 { if v <= 0.04045 { v / 12.92 } else { ((v + 0.055
 fn hex_to_xyz(h: u32) -> [f64; 3] { lin_to_xyz([srgb_decode(((h >> 16) & 255) as f64 / 255.0), srgb_decode(((h >> 8) & 255) as f64 / 255.0), srgb_decode((h & 255) as f64 / 255.0)]) }
 
 /// the six colours the repo's cam16 tests name (0x5588cc "example blue", black, white, red, green, blue) plus the secondaries and mid grey
-const CORPUS: [(&str, u32); 10] = [("example_blue", 0x5588cc), ("black", 0x000000), ("white", 0xffffff), ("red", 0xff0000), ("green", 0x00ff00), ("blue", 0x0000ff),
+pub(crate) const CORPUS: [(&str, u32); 10] = [("example_blue", 0x5588cc), ("black", 0x000000), ("white", 0xffffff), ("red", 0xff0000), ("green", 0x00ff00), ("blue", 0x0000ff),
     ("cyan", 0x00ffff), ("magenta", 0xff00ff), ("yellow", 0xffff00), ("gray", 0x808080)];
 
-fn xyz_inputs(rng: &mut Rng, n_rand: usize) -> Vec<[f64; 3]> {
+pub(crate) fn xyz_inputs(rng: &mut Rng, n_rand: usize) -> Vec<[f64; 3]> {
     let mut v: Vec<[f64; 3]> = CORPUS.iter().map(|(_, h)| hex_to_xyz(*h)).collect();
     // sRGB cube lattice (encoded values, as the tests do) — includes the gamut surface, the grey axis and black
     for r in [0.0, 0.25, 0.5, 0.75, 1.0] { for g in [0.0, 0.25, 0.5, 0.75, 1.0] { for b in [0.0, 0.25, 0.5, 0.75, 1.0] { v.push(lin_to_xyz([srgb_decode(r), srgb_decode(g), srgb_decode(b)])); } } }
@@ -119,7 +119,7 @@ fn xyz_inputs(rng: &mut Rng, n_rand: usize) -> Vec<[f64; 3]> {
 }
 
 #[derive(Clone, Copy, Debug)]
-struct Vc { la: f64, yb: f64, sur: (&'static str, f64), disc: (&'static str, f64) }
+pub(crate) struct Vc { pub(crate) la: f64, pub(crate) yb: f64, pub(crate) sur: (&'static str, f64), pub(crate) disc: (&'static str, f64) }
 
 fn viewing_conditions(rng: &mut Rng, n_rand: usize) -> Vec<Vc> {
     let mut v = vec![];
@@ -150,9 +150,9 @@ fn dynamic_whites(rng: &mut Rng, n_rand: usize) -> Vec<[f64; 3]> {
 }
 
 // ---------------------------------------------------------------------------------------------------------------------
-fn same<T: Fl>(a: T, b: T) -> bool { a.bits64() == b.bits64() }
-fn close_rel(a: f64, b: f64, tol: f64) -> bool { if a.is_nan() || b.is_nan() { return false; } (a - b).abs() <= tol * 1f64.max(a.abs()).max(b.abs()) }
-fn hue_dist_deg(a: f64, b: f64) -> f64 { let d = (a - b).rem_euclid(360.0); d.min(360.0 - d) }
+pub(crate) fn same<T: Fl>(a: T, b: T) -> bool { a.bits64() == b.bits64() }
+pub(crate) fn close_rel(a: f64, b: f64, tol: f64) -> bool { if a.is_nan() || b.is_nan() { return false; } (a - b).abs() <= tol * 1f64.max(a.abs()).max(b.abs()) }
+pub(crate) fn hue_dist_deg(a: f64, b: f64) -> f64 { let d = (a - b).rem_euclid(360.0); d.min(360.0 - d) }
 
 struct Kind { name: &'static str, lum_q: bool, chr: u8 }
 const KINDS: [Kind; 6] = [Kind { name: "Jch", lum_q: false, chr: 0 }, Kind { name: "Jmh", lum_q: false, chr: 1 }, Kind { name: "Jsh", lum_q: false, chr: 2 },
@@ -161,7 +161,7 @@ const KINDS: [Kind; 6] = [Kind { name: "Jch", lum_q: false, chr: 0 }, Kind { nam
 /// everything the property says about one (viewing condition, white point kind, component type)
 macro_rules! def_run { ($fname:ident, $wpp:ty, $swp:ty, $t:ty) => {
 #[allow(clippy::too_many_arguments)]
-fn $fname(out: &mut Out, params: Parameters<$wpp, $t>, wp_tok: &str, wp: [$t; 3], vc: &Vc, xyzs: &[[f64; 3]], lines_every: usize, first_corpus: bool) {
+pub(crate) fn $fname(out: &mut Out, params: Parameters<$wpp, $t>, wp_tok: &str, wp: [$t; 3], vc: &Vc, xyzs: &[[f64; 3]], lines_every: usize, first_corpus: bool) {
     type T = $t;
     let tag = <T as Fl>::TAG;
     let eps = <T as Fl>::eps();
@@ -388,5 +388,9 @@ pub fn run(tier: &str, seed: u64, dir: &str) {
     let n_ucs = if thorough { 200_000 } else { 8_000 };
     run_ucs_f32(&mut out, &mut rng, n_ucs);
     run_ucs_f64(&mut out, &mut rng, n_ucs);
+    // ---- the forms and entry points that are separate code and are not driven above (Alpha wrappers of all seven types, unbaked `Parameters`,
+    // the `Convert`/`ConvertOnce` and `*Cam16Unclamped` trait entry points of the inverse directions, the derive-generated UCS routes, collections,
+    // dynamic white points with Y_w != 1, stored hues whole turns away): `c16_more.rs`.  Called last, so that the case stream above is unchanged.
+    crate::c16_more::run_more(&mut out, &mut rng, thorough, &vcs, &whites);
     out.finish(dir, "\"exhaustive\":{\"note\":\"continuous domain: no finite exhaustive scan; thorough = 7x viewing conditions x 7x colours x 25x UCS\"}");
 }
